@@ -11,7 +11,7 @@ DEPENDS = {
     "C03": ["C12.1", "C12.2", "C12.4", "C10.1", "C04.1", "C04.2", "C04.3"],
     "C05": ["C04.1", "C04.2", "C04.3", "C04.4", "C01.4", "C01.5", "C01.6", "C10.4", "C12.1"],
     "C06": ["C03.17", "C03.9", "C20.6", "C13.4"],
-    "C08": ["C11.1", "C11.2", "C11.3", "C11.4", "C11.5", "C12.1"],
+    "C08": ["C11.1", "C11.2", "C11.3", "C11.4", "C11.5", "C12.1", "C18.2"],
     "C09": ["C11.3", "C11.4", "C11.5", "C10.1", "C02.3"],
     "C10": ["C11.3", "C11.4", "C11.5"],
     "C13": ["C07.4", "C07.6", "C20.1"],
